@@ -90,10 +90,67 @@ Example SRC_sse_runs :
                                    mul1L := (13,14); mul1H := (15,16) |} (0xfffefdfcfbfaf9f8, 0x0102030405060708) (0x8000000000000001, 0xdeadbeefcafebabe)))).
 Proof. vm_compute. reflexivity. Qed.
 
+(* ---- SseHash::finalize64 / finalize128 / finalize256 (translated since VIf / VRepeat / stores are in the fragment) ----
+   NOT the unbounded statement: a finite table of concrete states (two cores, pending lengths 0, 1, 5, 16, 17, 31, both
+   build profiles) on which the interpreted source text and s_finalize* are computed and compared.  It is a test inside
+   the assistant, kept here so that an edit of the text of finalize* (lanes summed, number of rounds, store offsets) breaks
+   an obligation that names the function; the unbounded tie of these three functions is still the native correspondence. *)
+Definition fin_core1 : score :=
+  {| v0L := (0xdbe6d5d5fe4cce2f, 0xa4093822299f31d0); v0H := (0x13198a2e03707344, 0x243f6a8885a308d3);
+     v1L := (0x3bd39e10cb0ef593, 0xc0acf169b5f18a8c); v1H := (0xbe5466cf34e90c6c, 0x452821e638d01377);
+     mul0L := (0xdbe6d5d5fe4cce2f, 0xa4093822299f31d0); mul0H := (0x13198a2e03707344, 0x243f6a8885a308d3);
+     mul1L := (0x3bd39e10cb0ef593, 0xc0acf169b5f18a8c); mul1H := (0xbe5466cf34e90c6c, 0x452821e638d01377) |}.
+Definition fin_core2 : score :=
+  {| v0L := (0xfffffffffffffff0, 0x8000000000000000); v0H := (0x00000000ffffffff, 0xffffffff00000000);
+     v1L := (0x0123456789abcdef, 0xfedcba9876543210); v1H := (0x7fffffffffffffff, 0xc000000000000001);
+     mul0L := (1, 2); mul0H := (0xdeadbeefcafebabe, 4); mul1L := (5, 0xffffffffffffffff); mul1H := (7, 0x8000000080000000) |}.
+Definition fin_bytes : list N :=
+  [0x80; 0x01; 0xff; 0x7f; 0x10; 0xa5; 0x5a; 0x00; 0xfe; 0x33; 0xc4; 0x9d; 0x21; 0xe7; 0x68; 0xb2;
+   0x0f; 0xf0; 0x81; 0x18; 0x42; 0xbd; 0x99; 0x66; 0x03; 0xfc; 0x55; 0xaa; 0xd1; 0x2e; 0x77; 0x88].
+Definition fin_cases : list (profile * score * packet) :=
+  flat_map (fun pr => flat_map (fun c => map (fun k => (pr, c, {| buf := fin_bytes; idx := k |})) [0; 1; 5; 16; 17; 31]%nat)
+                               [fin_core1; fin_core2]) [prof_dev; prof_release].
+Definition vfst (r : res vval) : res vval :=
+  match r with Ok (XT [a; _]) => Ok a | Ok _ => Fault | Panic => Panic | Fault => Fault end.
+Definition res_eqb (a b : res vval) : bool :=
+  match a, b with
+  | Ok (XN x), Ok (XN y) => N.eqb x y
+  | Ok (XT xs), Ok (XT ys) =>
+      (fix go (l m : list vval) : bool :=
+         match l, m with
+         | [], [] => true
+         | XN x :: l', XN y :: m' => N.eqb x y && go l' m'
+         | _, _ => false
+         end) xs ys
+  | Panic, Panic => true
+  | _, _ => false
+  end.
+Definition fin_case_ok (t : profile * score * packet) : bool :=
+  let '(pr, c, b) := t in
+  let s := {| s_core := c; s_buffer := b |} in
+  res_eqb (vfst (scall pr b 60 "SseHash::finalize64" (core_vals c)))
+          (match s_finalize64 pr s with Ok r => Ok (XN r) | Panic => Panic | Fault => Fault end)
+  && res_eqb (vfst (scall pr b 60 "SseHash::finalize128" (core_vals c)))
+             (match s_finalize128 pr s with Ok (a, d) => Ok (XT [XN a; XN d]) | Panic => Panic | Fault => Fault end)
+  && res_eqb (vfst (scall pr b 60 "SseHash::finalize256" (core_vals c)))
+             (match s_finalize256 pr s with Ok (a0, a1, a2, a3) => Ok (XT [XN a0; XN a1; XN a2; XN a3]) | Panic => Panic | Fault => Fault end).
+
+Theorem SRC_sse_finalize_samples : forallb fin_case_ok fin_cases = true /\ List.length fin_cases = 24%nat.
+Proof. split; vm_compute; reflexivity. Qed.
+(* the table is not degenerate: results are Ok, and differ between the two cores *)
+Example SRC_sse_finalize_samples_nontrivial :
+  match s_finalize64 prof_dev {| s_core := fin_core1; s_buffer := {| buf := fin_bytes; idx := 17 |} |},
+        s_finalize64 prof_dev {| s_core := fin_core2; s_buffer := {| buf := fin_bytes; idx := 17 |} |} with
+  | Ok x, Ok y => negb (N.eqb x y)
+  | _, _ => false
+  end = true.
+Proof. vm_compute. reflexivity. Qed.
+
 Print Assumptions SRC_sse_kernel.
 Print Assumptions SRC_sse_remainder_path.
 Print Assumptions SRC_sse_wrapper.
 Print Assumptions SRC_sse_from_identity.
+Print Assumptions SRC_sse_finalize_samples.
 Print Assumptions SRC_avx_kernel.
 Print Assumptions SRC_avx_wrapper.
 Print Assumptions SRC_avx_from_identity.
